@@ -123,8 +123,10 @@ Section Extends.
     - intros; exact I.
     - intros m a _. reflexivity.
     - intros f Hf fs Hfs m a Hne.
-      destruct f as [k key op v | name u s | name u pfs]; try (cbn [TextDeSpec.spec_fields] in Hne; now destruct Hne).
-      cbn [Xf] in Hf. cbn [TextDeSpec.spec_fields TextDeSpec2.spec_fields2] in *. unfold no_op.
+      destruct f as [k key op v | name u s | name u pfs];
+        try (exfalso; apply Hne; reflexivity).
+      cbn [Xf] in Hf. rewrite (spec_fields_cons decode pf F) in *. rewrite (spec_fields2_cons tp decode pf F).
+      cbn [is_param andb fval fkey]. unfold no_op.
       rewrite (entry_mono unit unit
                  (fun sh' (_ _ : unit) => omap (fun d => (d, tt)) (spec_v v sh' (Some (op_or_equal op))))
                  (fun sh' (_ _ : unit) => omap (fun d => (d, tt)) (spec_v2 v sh' (Some (op_or_equal op))))).
@@ -134,11 +136,11 @@ Section Extends.
       + now apply bind_unfit_l in Hne.
     - split; intros; reflexivity.
     - intros v Hv vs [Hall Htup]. split.
-      + intros s Hne. cbn [TextDeSpec.spec_items TextDeSpec2.spec_items2] in *.
+      + intros s Hne. rewrite (spec_items_cons decode pf F) in *. rewrite (spec_items2_cons tp decode pf F).
         rewrite Hv by (now apply bind_unfit_l in Hne).
         destruct (spec_v v s None) as [x| | | |]; cbn [obind] in *; try reflexivity.
         rewrite Hall by (now apply bind_unfit_l in Hne). reflexivity.
-      + intros ss Hne. cbn [TextDeSpec.spec_tuple TextDeSpec2.spec_tuple2] in *.
+      + intros ss Hne. rewrite (spec_tuple_cons decode pf F) in *. rewrite (spec_tuple2_cons tp decode pf F).
         destruct ss as [|s ss']; [reflexivity|].
         rewrite Hv by (now apply bind_unfit_l in Hne).
         destruct (spec_v v s None) as [x| | | |]; cbn [obind] in *; try reflexivity.
